@@ -84,6 +84,28 @@ def gen_lifo(rng):
     return '\n'.join(lines) + '\n'
 
 
+def gen_lstack(rng):
+    """valid histories only: a stack over a LIFO-only block source grows over several blocks, unwinds (blocks go to the cache),
+    shrinks or is destroyed with used and cached blocks at once"""
+    kind = rng.choice(['static', 'virtual'])
+    bs = rng.choice([256, 512, 1024])
+    top = 3000 if kind == 'virtual' else bs // 2
+    lines = ['lstack %s %d' % (kind, bs)]
+    for _ in range(rng.randint(8, 40)):
+        r = rng.random()
+        if r < 0.50:
+            lines.append('a %d' % rng.choice([8, 40, top // 2, top, top]))
+        elif r < 0.62:
+            lines.append('m')
+        elif r < 0.80:
+            lines.append('u %d' % rng.randint(0, 3))
+        elif r < 0.88:
+            lines.append('s')
+        else:
+            lines.append('r')
+    return '\n'.join(lines) + '\n'
+
+
 def gen_unwind(rng):
     lines = ['unwind %d %s' % (rng.choice([128, 256, 1024]), rng.choice(['up', 'down']))]
     for _ in range(rng.randint(6, 40)):
@@ -175,7 +197,7 @@ def run(ctx):
         for c in cfgs:
             cases.append(dict(exe=exe[c], script=sc, replay_args=['ordered', 'small'], tag=('small', c)))
     for i in range(15 * n):
-        for g, k in ((gen_lifo, 'lifo'), (gen_unwind, 'unwind'), (gen_pool, 'pool')):
+        for g, k in ((gen_lifo, 'lifo'), (gen_unwind, 'unwind'), (gen_pool, 'pool'), (gen_lstack, 'lstack')):
             sc = g(rng)
             for c in cfgs:
                 if k == 'pool' and not flags[c][0]:
